@@ -100,3 +100,9 @@ claim('C06', 'fault_enumeration', 'error injection at token positions of generat
       'include levels; the generator knows the file and end line of every token, model_lang says at which token the text must be rejected, and every diagnostic of the failed parse must name exactly that file and line; accepted texts must '
       'deliver no diagnostic at all. Line bookkeeping is spread over a dozen lexer actions and only wrong for particular construct sequences, so layout-randomised error-point enumeration is the fitting level.',
       'Trusts: model_lang for the rejection point (cases where model and library disagree on accept/reject are C01\'s and are not judged here); the layout generator\'s own newline counting.')
+
+claim('C14', 'fault_enumeration', 'trace conformance: the callback invocation log of the real parser is aligned with the trace of the reference interpreter, then every single invocation is made to fail once and the resulting tree compared with the interpreter state at that point',
+      'Random schemas put parse / validation / function callbacks (declared or registered by path, also inside multi sections) on random subsets of options; the fault-free run must produce the reference trace (decoded texts, order, stored products, '
+      'validation after every stored value before any later item), and for every k the k-th invocation returns failure: the parse must fail there, no further callback may run and the tree must equal the interpreter state. Pre-set validators are checked '
+      'for accept / rewrite / veto. "For all choices of which single invocation fails" is a fault enumeration over the trace.',
+      'Trusts: model_lang for the expected trace; additional validation calls on an unchanged option are tolerated; callbacks on list options with declared defaults are not generated (the library parses those defaults through the callbacks at instantiation).')
